@@ -186,6 +186,16 @@ class HListTup:
         return HListTup(self.kinds, self.cols, self.n, self.names)
 
 
+class HListStruct:
+    """list of named tuples whose fields are 1-D arrays (e.g. a list of CooArray): one HListArr-like pair per field."""
+
+    def __init__(self, names, kinds, arrs, lens, n, tname=None):
+        self.names, self.kinds, self.arrs, self.lens, self.n, self.tname = list(names), list(kinds), list(arrs), list(lens), n, tname
+
+    def clone(self):
+        return HListStruct(self.names, self.kinds, self.arrs, self.lens, self.n, self.tname)
+
+
 class HDict:
     """dict: dom : Array(K -> Bool), val : Array(K -> V), size : Int."""
 
